@@ -300,7 +300,7 @@ def parse_spec(notes):
     return spec
 
 
-def concrete_scene(spec, witness, seed=0, min_dim=1):
+def concrete_scene(spec, witness, seed=0, min_dim=1, max_dim=8):
     """Build REAL config/objects/arrays (jnp float64/complex128) for a configuration spec, using the
     witness' shape/arrays where present and seeded random data elsewhere."""
     import jax.numpy as jnp
@@ -313,8 +313,8 @@ def concrete_scene(spec, witness, seed=0, min_dim=1):
 
     rng = np.random.default_rng(seed)
     sc = (witness or {}).get("scalars", {})
-    # extents from a solver model may be astronomically large: replays run on at most 8 cells per axis
-    shape = tuple(min(8, max(min_dim, int(sc.get(f"N{a}", 3)))) if isinstance(sc.get(f"N{a}", 3), (int, float)) else 3 for a in "xyz")
+    # extents from a solver model may be astronomically large: replays run on at most max_dim cells per axis
+    shape = tuple(min(max_dim, max(min_dim, int(sc.get(f"N{a}", 3)))) if isinstance(sc.get(f"N{a}", 3), (int, float)) else 3 for a in "xyz")
     wa = witness_arrays_to_numpy(witness or {})
     cplx = bool(spec.get("complex"))
     if spec.get("nonuniform"):
